@@ -83,6 +83,8 @@ def gen(ctx):
         yield Case("RUN", a, tags=("handle-limits",))
     for a in R.declared_kind_value_cases():
         yield Case("RUN", a, tags=("declared-kind-x-value",))
+    for a in R.shadowing_control_cases():
+        yield Case("RUN", a, tags=("control-shadowing-a-built-in",))
     # the messages as the Datapath handle really builds them (register class incl. the volatile flag, index, value, order):
     # flows that call set_program with presets and update_field on every kind of variable
     for _ in range(4000 if ctx.thorough else 400):
